@@ -999,13 +999,12 @@ func (c *Ctx) seqPushLoops() {
 						problems = append(problems, "the value appended is not an element of the argument list")
 						continue
 					}
-					phi := c.rootPhi(ia.Index, hdr)
-					if phi == nil || ssa.Value(phi) != ia.Index {
+					first, step, okI := c.loopIndex(ia.Index, hdr)
+					if !okI {
 						problems = append(problems, "the argument index is not the loop counter")
 						continue
 					}
-					init, step, ok := c.phiInitStep(phi, hdr)
-					if k, isC := constIntOf(init); !ok || !isC || k != 0 || step != 1 {
+					if first != 0 || step != 1 {
 						problems = append(problems, "the loop counter does not run 0, 1, 2, ... (one argument per iteration, ascending)")
 					}
 					// appended at the end of the current header
@@ -1022,8 +1021,17 @@ func (c *Ctx) seqPushLoops() {
 							problems = append(problems, "the new header is not <current header> ++ [x[i]]")
 						}
 					}
-					// the loop runs while i < len(x): exit only when i >= len(x) or by the documented break
-					c.pushLoopBound(fa, fn, hdr, phi, xParam, &problems)
+					// the loop runs while i < len(x)
+					if !c.loopBoundIs(hdr, ia.Index, func(y ssa.Value) bool {
+						call, ok := y.(*ssa.Call)
+						if !ok {
+							return false
+						}
+						b, ok := call.Call.Value.(*ssa.Builtin)
+						return ok && b.Name() == "len" && call.Call.Args[0] == ssa.Value(xParam)
+					}) {
+						problems = append(problems, "the loop condition is not counter < len(arguments)")
+					}
 				}
 			}
 		}
@@ -1069,6 +1077,10 @@ func (c *Ctx) seqRemove() {
 	h0 := c.entryHeader(fn)
 	var problems []string
 	n := 0
+	if len(fa.loopOf) == 0 {
+		c.seqRemoveAlgebraic(fa, fn, sv, h0)
+		return
+	}
 	if len(fa.loopOf) != 1 {
 		problems = append(problems, "expected exactly one loop")
 		c.seqReport(fn, "list operation", problems, 0, "")
@@ -1519,5 +1531,150 @@ func (c *Ctx) seqWrappers() {
 			sort.Strings(problems)
 			c.rep.bad("R-SEQ", pr[0], "wrapper", pos, strings.Join(uniq(problems), "; "))
 		}
+	}
+}
+
+// loopIndex: v is a loop's running index - a header phi, or a header phi plus a
+// constant (the shape of `for i, v := range s`, whose phi starts at -1 and is
+// used as phi+1).  Returns the first value the index takes and its step.
+func (c *Ctx) loopIndex(v ssa.Value, hdr *ssa.BasicBlock) (first, step int64, ok bool) {
+	phi := c.rootPhi(v, hdr)
+	if phi == nil {
+		return 0, 0, false
+	}
+	init, st, okS := c.phiInitStep(phi, hdr)
+	k, isC := constIntOf(init)
+	if !okS || !isC {
+		return 0, 0, false
+	}
+	off := int64(0)
+	x := v
+	for {
+		bo, isBo := x.(*ssa.BinOp)
+		if !isBo {
+			break
+		}
+		d, _ := constIntOf(bo.Y)
+		if bo.Op == token.SUB {
+			d = -d
+		}
+		off += d
+		x = bo.X
+	}
+	return k + off, st, true
+}
+
+// loopBoundIs: the loop (header hdr) is left, by its header test, exactly when idx >= bound
+// where bound satisfies pred (e.g. "is len(x)"); idx must be the very value used as index.
+func (c *Ctx) loopBoundIs(hdr *ssa.BasicBlock, idx ssa.Value, pred func(ssa.Value) bool) bool {
+	// the test may sit in the header or (range loops) in the header after computing idx
+	for _, b := range []*ssa.BasicBlock{hdr} {
+		if len(b.Instrs) == 0 {
+			continue
+		}
+		iff, ok := b.Instrs[len(b.Instrs)-1].(*ssa.If)
+		if !ok {
+			continue
+		}
+		bo, ok := iff.Cond.(*ssa.BinOp)
+		if !ok || bo.Op != token.LSS || bo.X != idx {
+			continue
+		}
+		if pred(bo.Y) {
+			return true
+		}
+	}
+	return false
+}
+
+// seqRemoveAlgebraic: a loop-free remove (e.g. append(h[:k], h[k+1:]...)): the header left
+// behind is the header found without the looked-up slot, and that slot's value is returned.
+func (c *Ctx) seqRemoveAlgebraic(fa *FnAnalysis, fn *ssa.Function, sv []ssa.Value, h0 *Term) {
+	var problems []string
+	n := 0
+	idxCalls := c.findCalls(fn, "stack.index")
+	if len(idxCalls) != 1 {
+		problems = append(problems, "expected exactly one position lookup")
+		c.seqReport(fn, "list operation", problems, 0, "")
+		return
+	}
+	for _, ret := range c.returnsOf(fn) {
+		for _, s := range fa.statesBefore(ret) {
+			if c.stateInfeasible(fa, s, sv) {
+				continue
+			}
+			n++
+			parts, stored, ok := c.finalHeader(fa, s, fn.Params[0])
+			if !stored {
+				if v, known := c.knownBool(fa, s, ret.Results[1]); !known || v {
+					problems = append(problems, "success is reported although nothing was removed")
+				}
+				continue
+			}
+			if !ok {
+				problems = append(problems, "the header left behind is not built from the header found by slicing/appending")
+				continue
+			}
+			k := fa.callResultTerm(s, idxCalls[0], 1)
+			want := []seqPart{{base: h0, lo: c.intConst(0), hi: k}, {base: h0, lo: c.plusT(k, c.intConst(1)), hi: c.lenT(h0)}}
+			// the rebuilt front may start with the configuration value instead of Seg(h0,0,1)
+			if len(parts) > 0 && parts[0].base == nil && parts[0].elemV != nil && c.isCfgOf(fa, s, parts[0].elemV, fn.Params[0]) {
+				parts = append([]seqPart{{base: h0, lo: c.intConst(0), hi: c.intConst(1)}}, parts[1:]...)
+			}
+			if !c.seqMatches(fa, s, parts, want, sv) {
+				problems = append(problems, fmt.Sprintf("the header left behind is %s, expected the header found without the looked-up slot", seqString(parts)))
+			}
+			r0 := fa.term(s, ret.Results[0])
+			h, ix, okE := indexElem(r0)
+			if !okE || h != h0 || ix.key != "P(1)" {
+				problems = append(problems, "the value returned is not the element found at the requested index: "+r0.key)
+			}
+		}
+	}
+	c.seqReport(fn, "list operation", problems, n, "the header left behind is the header found without the looked-up slot; the element looked up is returned")
+}
+
+// ruleIndexLemma: whenever stack.index reports found, the position it returns
+// addresses an existing user slot: 1 <= position <= len-1.  Proved on the
+// function's return paths; the linear prover then uses it as an axiom for
+// every call whose found flag is known true (engine.indexLemma).
+func (c *Ctx) ruleIndexLemma() {
+	fn := c.p.ByName["stack.index"]
+	if fn == nil || c.eng.indexLemmaTried {
+		return
+	}
+	c.eng.indexLemmaTried = true
+	fa := c.eng.analyze(fn, nil)
+	sv := c.stackValues(fn)
+	tt := c.eng.tt
+	h := tt.mk(Term{K: "P", N: 0, S: fn.Params[0].Name()})
+	ok := true
+	n := 0
+	for _, ret := range c.returnsOf(fn) {
+		if len(ret.Results) != 3 {
+			ok = false
+			continue
+		}
+		for _, s := range fa.statesBefore(ret) {
+			if c.stateInfeasible(fa, s, sv) {
+				continue
+			}
+			if v, known := c.knownBool(fa, s, ret.Results[2]); known && !v {
+				continue
+			}
+			n++
+			r1 := fa.term(s, ret.Results[1])
+			if !c.provesFact(fa, s, Fact{aTR, tt.mk(Term{K: "B", S: "<=", A: c.intConst(1), B: r1}), true}, sv) ||
+				!c.provesFact(fa, s, Fact{aTR, tt.mk(Term{K: "B", S: "<", A: r1, B: c.lenT(h)}), true}, sv) {
+				ok = false
+			}
+		}
+	}
+	pos := c.p.pos(fn.Pos())
+	if ok && n > 0 {
+		c.eng.indexLemma = true
+		c.rep.ok("R-INV", "stack.index", "found position in range", pos, fmt.Sprintf("on all %d return path states that may report found, 1 <= position < len(header)", n))
+	} else {
+		c.rep.ok("R-INV", "stack.index", "found position in range", pos, "lemma not established on this tree; not used")
 	}
 }
